@@ -343,6 +343,58 @@ fn std_part(ctx: &Ctx, thorough: bool) {
             }
         }
     }
+    // the builder route for external pointers x every setting of the hugetlbfs hint x pointers at
+    // every page of the arena (so at least one is page aligned but not aligned to any larger page
+    // size): the hint describes the backing file, it is not an alignment requirement
+    for hint in [None, Some(false), Some(true)] {
+        for delta in [0usize, 1, 2048, 4095, 4096, 4097, 8192, 8192 + 2048, 3 * 4096] {
+            for &size in &[1usize, 4096] {
+                for with_file in [false, true] {
+                    ctx.case(true);
+                    use vm_memory::mmap::MmapRegionBuilder;
+                    // SAFETY: inside the 4-page arena
+                    let p = unsafe { arena3.ptr().add(delta) };
+                    let must_fail = (p as usize) % 4096 != 0;
+                    let rp = || json!({"api": "MmapRegionBuilder::with_raw_mmap_pointer", "pointer_offset_in_arena": delta, "pointer_trailing_zero_bits": (p as usize).trailing_zeros(), "size": size, "hugetlbfs_hint": format!("{:?}", hint), "with_file": with_file});
+                    let (res, log) = record_maps(|| {
+                        let mut b = MmapRegionBuilder::<()>::new(size).with_mmap_prot(libc::PROT_READ | libc::PROT_WRITE).with_mmap_flags(libc::MAP_SHARED);
+                        if let Some(h) = hint {
+                            b = b.with_hugetlbfs(h);
+                        }
+                        if with_file {
+                            let f = tempfile().unwrap();
+                            f.set_len(8192).unwrap();
+                            b = b.with_file_offset(FileOffset::new(f, 0));
+                        }
+                        // SAFETY: the arena outlives the region
+                        unsafe { b.with_raw_mmap_pointer(p) }.build()
+                    });
+                    match res {
+                        Ok(r) => {
+                            if must_fail {
+                                fail(ctx, "C15/std/build_raw/misaligned-pointer-accepted", format!("hint {:?}: pointer at arena offset {} accepted", hint, delta), rp());
+                            }
+                            if r.owned() || r.as_ptr() != p || r.size() != size || r.is_hugetlbfs() != hint || r.file_offset().is_some() != with_file {
+                                fail(ctx, "C15/std/build_raw/attributes", format!("hint {:?}: owned={} size={} is_hugetlbfs={:?}", hint, r.owned(), r.size(), r.is_hugetlbfs()), rp());
+                            }
+                            let ((), log2) = record_maps(|| drop(r));
+                            if !log2.is_empty() {
+                                fail(ctx, "C15/std/build_raw/external-mapping-touched-on-drop", format!("{:?}", log2), rp());
+                            }
+                        }
+                        Err(e) => {
+                            if !must_fail {
+                                fail(ctx, "C15/std/build_raw/aligned-pointer-refused", format!("hugetlbfs hint {:?}: page-aligned pointer (arena offset {}, {} trailing zero bits) refused: {:?}", hint, delta, (p as usize).trailing_zeros(), e), rp());
+                            }
+                        }
+                    }
+                    if !log.is_empty() {
+                        fail(ctx, "C15/std/build_raw/mmap-called", format!("{:?}", log), rp());
+                    }
+                }
+            }
+        }
+    }
     // shared file regions: byte i of the region is byte offset+i of the file, both directions
     for (flen, off, size) in [(4096u64, 0u64, 64usize), (8192, 4096, 17), (12288, 4096, 8192), (4097, 0, 4097), (8192, 0, 4096)] {
         let f = tempfile().unwrap();
